@@ -677,6 +677,45 @@ fn remapped(case: &crate::props::c07::Case, obs: &mut Obs) -> PropResult {
 	Ok(())
 }
 
+/// the libFuzzer target `c02_rewrite` and its replay: any byte string that is a well-formed class file (strict decoder)
+/// and that duke reads must be re-written faithfully
+pub fn rewrite_from_bytes(data: &[u8], obs: &mut Obs) -> PropResult {
+	if crate::classfile::decode::decode(data).is_err() {
+		return Ok(());
+	}
+	let Ok(tree) = duke::read_class(&mut Cursor::new(data)) else { return Ok(()) };
+	if project(&tree).is_err() {
+		return Ok(());
+	}
+	tree_write_check(&tree, obs).map(|_| ())
+}
+
+fn fuzz(ctx: &mut Ctx) {
+	let sub = "fuzz_rewrite";
+	let by_value = |v: &serde_json::Value, obs: &mut Obs| -> PropResult { rewrite_from_bytes(&crate::props::c16::unhex(v["data_hex"].as_str().unwrap_or("")), obs) };
+	if ctx.in_replay() {
+		if let Some(v) = ctx.replay_case(sub) {
+			let mut obs = ctx.new_obs();
+			if let Err(e) = crate::engine::no_panic(|| by_value(&v, &mut obs)).and_then(|x| x) {
+				ctx.push_violation(sub, e);
+			}
+		}
+		return;
+	}
+	ctx.run_saved_values(sub, &by_value);
+	if ctx.tier != crate::engine::Tier::Thorough {
+		return;
+	}
+	let seeds: Vec<Vec<u8>> = crate::corpus::load().into_iter().map(|x| x.1).filter(|b| b.len() < 6000).collect();
+	let o = crate::fuzzrun::campaign(ctx, "c02_rewrite", 120, &seeds, 8192);
+	let open: Vec<String> = ctx.findings.open_ids("C02").into_iter().collect();
+	crate::fuzzrun::report(ctx, sub, "c02_rewrite", o, &|input| {
+		let ids: Vec<&str> = open.iter().map(|s| s.as_str()).collect();
+		let mut obs = Obs::with_open(&ids);
+		(serde_json::json!({"data_hex": crate::props::c16::hex(input)}), crate::engine::no_panic(|| rewrite_from_bytes(input, &mut obs)).and_then(|x| x))
+	});
+}
+
 fn corpus(ctx: &mut Ctx) {
 	let files = crate::corpus::load();
 	ctx.run_enum("corpus_javac", |rec| {
@@ -712,4 +751,5 @@ pub fn run(ctx: &mut Ctx) {
 		remapped,
 	);
 	corpus(ctx);
+	fuzz(ctx);
 }
